@@ -1252,8 +1252,15 @@ def slim(case):
 
 
 # ----------------------------------------------------------------------------------------------------------------------
+def _long_helpers():
+    return dict(sig_clauses=sig_clauses, ts_clauses=ts_clauses, extra_clauses=extra_clauses, ts_build=ts_build, ts_route=ts_route, ts_fargs=ts_fargs,
+                ref_gain=ref_gain, call=call, FUNC=FUNC, TOL=TOL, O_RETURNS=O_RETURNS)
+
+
 def run(chk):
-    chk.extra["rule"] = RULE
+    from . import c12_long
+    chk.extra["rule"] = RULE + " long-records: " + " ".join(c12_long.__doc__.split())
+    c12_long.run_long(chk, _long_helpers(), KINDS, ("get", "filter", "copy", "geta", "getda", "trace"))
     chk.assumptions += [
         "scipy.signal.butter (bilinear transform with pre-warping) + filtfilt / sosfiltfilt (odd padding, default pad length) "
         "realise the squared Butterworth magnitude with zero phase on a stationary sinusoid away from the ends: measured on "
@@ -1663,6 +1670,14 @@ def replay(rp):
         for nth, why in zip(("first call ", "second call"), whys):
             print(nth, "agrees with the model" if why is None else "DIFFERS from the model in: " + why)
         return 1 if any(w is not None for w in whys) else 0
+    if inp.get("long"):
+        from . import c12_long
+        print("input   ", inp)
+        try:
+            fails = c12_long.long_clauses(inp, _long_helpers())
+        except Exception as e:
+            fails = [(O_RETURNS, "a filtered signal the clauses can be evaluated on", "%s: %s" % (type(e).__name__, e))]
+        return show(fails)
     if inp.get("variant") == "irregular":
         r2 = __import__("random").Random(inp.get("jitter_seed", 0))
         inp["jitter"] = [r2.uniform(-0.2, 0.2) for _ in range(inp["n"] - 2)]
